@@ -893,6 +893,34 @@ fn real_main() {
                 run_full(&mut total, &all, 2, &ops, 0..=l, 8, nd3, oth);
                 run_full(&mut total, &all, 3, &ops, 0..=l.min(7), 8, nd3, oth);
             }
+            // needles drawn from four CONSECUTIVE byte values, every triple
+            // (incl. repeated needles and gaps), haystacks over the same four
+            // values: exposes "needles span a range" shortcuts
+            let lc = if thorough { 7 } else { 5 };
+            for base in [0x61u8, 0xfe, 0x00] {
+                let vals = [base, base.wrapping_add(1), base.wrapping_add(2), base.wrapping_add(3)];
+                for t in 0..64usize {
+                    let nd3 = [vals[t % 4], vals[(t / 4) % 4], vals[t / 16]];
+                    n_assign += 1;
+                    for len in 0..=lc {
+                        let n = enumr::pow(4, len as u32);
+                        let all_c = all.clone();
+                        let rep = par::run_chunks(n, 1024, |lo, hi, r| {
+                            let mut ctx = Ctx::new();
+                            let mut data = vec![0u8; len];
+                            enumr::for_strings(4, len, lo, hi, |idx, ds| {
+                                for i in 0..len {
+                                    data[i] = vals[ds[i] as usize];
+                                }
+                                for k in 1..=3u8 {
+                                    check_shape(&mut ctx, r, &all_c, k, &ops, nd3, &data, Place::Plain, (idx % 4) as usize, idx, vals[3]);
+                                }
+                            });
+                        });
+                        total.merge(rep);
+                    }
+                }
+            }
             run_swar_values(&mut total, &ops, if thorough { &needles } else { &needles[..3] }, thorough);
             bounds.insert("values".into(), json!({
                 "assignments": n_assign, "max_len": lv,
@@ -1035,25 +1063,39 @@ fn real_main() {
                 }
                 lens.sort();
                 lens.dedup();
-                let aligns = if thorough { s.aligns() } else { s.aligns().min(4 * v).min(64) };
+                let aligns = if thorough { s.aligns() } else { s.aligns().min(2 * v) };
                 let rep = par::run_items(&lens, |_, &len, r| {
                     let mut big = Arena::plain(len / 4096 + 3);
                     let mut data = vec![other; len];
                     let span = (6 * v).min(len);
-                    let mut positions: Vec<Option<usize>> = vec![None];
-                    positions.extend((0..span).map(Some));
-                    positions.extend((len - span..len).map(Some));
-                    positions.sort();
-                    positions.dedup();
+                    // (first match, optional second match): none; every single
+                    // position near either end; and pairs at short distances
+                    let mut positions: Vec<(Option<usize>, Option<usize>)> = vec![(None, None)];
+                    let mut singles: Vec<usize> = (0..span).chain(len - span..len).collect();
+                    singles.sort();
+                    singles.dedup();
+                    for &p in &singles {
+                        positions.push((Some(p), None));
+                    }
+                    for &p in &singles {
+                        for d in [1usize, v - 1, v, v + 1, 2 * v - 1] {
+                            if d > 0 && p + d < len && p % 2 == 0 {
+                                positions.push((Some(p), Some(p + d)));
+                            }
+                        }
+                    }
                     let mut order = 0u64;
                     for k in 1..=3u8 {
                         for role in 0..k as usize {
-                            for &pos in &positions {
+                            for &(pos, pos2) in &positions {
                                 for b in data.iter_mut() {
                                     *b = other;
                                 }
                                 if let Some(p) = pos {
                                     data[p] = nd[role];
+                                }
+                                if let Some(p) = pos2 {
+                                    data[p] = nd[(role + 1) % k as usize];
                                 }
                                 for a in 0..aligns {
                                     for fill in [nd[0], other] {
@@ -1084,9 +1126,9 @@ fn real_main() {
                                                 r.violation(Violation {
                                                     class: class.into(),
                                                     key: ((len as u64) << 20) | (order & 0xfffff),
-                                                    what: format!("[{}] {} {}{} on a {}-byte haystack with its only match at {:?} (needle #{}), start offset {}, neighbour fill {:02x}: {}", class, s.name(), op.name(), k, len, pos, role + 1, a, fill, what),
+                                                    what: format!("[{}] {} {}{} on a {}-byte haystack with matches at {:?} (needle #{}), start offset {}, neighbour fill {:02x}: {}", class, s.name(), op.name(), k, len, (pos, pos2), role + 1, a, fill, what),
                                                     replay_argv: vec!["long-single".into(), "--subjects".into(), s.name(), "--ops".into(), op.name().into()],
-                                                    detail: json!({"class": class, "subject": s.name(), "op": op.name(), "k": k, "len": len, "match_at": pos, "offset": a, "fill": fill}),
+                                                    detail: json!({"class": class, "subject": s.name(), "op": op.name(), "k": k, "len": len, "match_at": format!("{:?}", (pos, pos2)), "offset": a, "fill": fill}),
                                                 });
                                             }
                                         }
@@ -1099,7 +1141,7 @@ fn real_main() {
                     r.sample(len as u64, || json!({"subject": s.name(), "len": len, "single_match_positions": format!("none, 0..{}, {}..{}", span, len - span, len), "start_offsets": aligns}));
                 });
                 total.merge(rep);
-                bounds.insert(format!("long-single/{}", s.name()), json!({"lens": lens, "match_positions": "none, each of the first and last 6V positions", "start_offsets": aligns}));
+                bounds.insert(format!("long-single/{}", s.name()), json!({"lens": lens, "match_positions": "none; each of the first and last 6V positions; pairs (p, p+d) for even p in those spans and d in {1,V-1,V,V+1,2V-1}", "start_offsets": aligns}));
             }
         }
         "raw-edges" => {
